@@ -333,10 +333,10 @@ type Directed struct {
 	// BelowFloor: the history leaves the assumption "not reorganised below the retention floor";
 	// errors are recorded and compared with the model, not judged
 	BelowFloor bool
-	Name    string
-	Near    bool // starts from the base (height W-10) instead of an empty node
-	Ops     func(height int) []Op
-	Probe   string // which repair flag this history decides ("" = none)
+	Name       string
+	Near       bool // starts from the base (height W-10) instead of an empty node
+	Ops        func(height int) []Op
+	Probe      string // which repair flag this history decides ("" = none)
 }
 
 func st(n int, p Plan) Op { return Op{Kind: "store", N: n, Plan: p} }
@@ -448,9 +448,9 @@ func directed() []Directed {
 		{Name: "failed-lazy-initialisation", Ops: func(int) []Op {
 			return []Op{
 				st(3, nil), st(1, evA), st(2, nil), {Kind: "snap"},
-				{Kind: "restartfault"},  // the first access hits a transient read error
-				qu(filtA, 0, 5, 2, 0),   // … and the error is remembered: open finding (C05 L16, query side)
-				st(1, evB),              // a Store fails once and re-arms the initialiser
+				{Kind: "restartfault"}, // the first access hits a transient read error
+				qu(filtA, 0, 5, 2, 0),  // … and the error is remembered: open finding (C05 L16, query side)
+				st(1, evB),             // a Store fails once and re-arms the initialiser
 				st(1, evB), qu(filtA, 0, 9, 2, 0), qu(filtB, 0, 9, 2, 0),
 				{Kind: "restartfault"}, {Kind: "restart"}, qu(filtB, 0, 9, 2, 0), // a restart re-arms too
 				{Kind: "restartfault"}, rv(1), rv(1), qu(filtA, 0, 9, 2, 0),
@@ -478,14 +478,14 @@ func directed() []Directed {
 			// is recorded (model = code), not judged
 			return []Op{
 				st(2, nil), st(1, evA), st(3, nil), // 6 blocks
-				{Kind: "prune", N: 5}, rv(1),     // head 4 < floor 5: nothing retained is left
+				{Kind: "prune", N: 5}, rv(1), // head 4 < floor 5: nothing retained is left
 				qu(filtA, 0, 4, 2, 0), qu(filtA, 2, 9, 2, 0), qu(filtA, 5, 9, 2, 0),
-				rv(1),                              // the head's state update is pruned: refused
+				rv(1),                                    // the head's state update is pruned: refused
 				{Kind: "restart"}, qu(filtA, 0, 4, 2, 0), // floor ≤ BlockHashLag: the initialiser still finds every header
 				st(1, evB), qu(filtB, 5, 9, 2, 0), qu(filtB, 0, 9, 2, 0),
-				st(24, nil), st(1, evA),           // 31 blocks
-				{Kind: "prune", N: 30}, rv(1),     // floor 30 > BlockHashLag, head 29 below it
-				{Kind: "restart"},                 // rebuild from 0 over pruned headers: the initialiser fails
+				st(24, nil), st(1, evA), // 31 blocks
+				{Kind: "prune", N: 30}, rv(1), // floor 30 > BlockHashLag, head 29 below it
+				{Kind: "restart"}, // rebuild from 0 over pruned headers: the initialiser fails
 				qu(filtA, 29, 29, 2, 0), st(1, evA), qu(filtA, 30, 30, 2, 0),
 			}
 		}},
@@ -494,7 +494,7 @@ func directed() []Directed {
 				st(W+5-h, nil), qu(filtA, 0, W+5, 2, 0),
 				{Kind: "tamper", T: "del 0"}, qu(filtA, 0, W+5, 2, 0), // still cached
 				{Kind: "restart"}, qu(filtA, 0, W+5, 2, 0), qu(filtA, W, W+5, 2, 0), // window 0 missing: notfound
-				rv(6),                                                                  // re-opening window 0 fails too
+				rv(6), // re-opening window 0 fails too
 				qu(filtA, W, W+5, 2, 0),
 			}
 		}},
